@@ -495,6 +495,35 @@ class Program:
                         other = True
             if len(classes) == 1 and not other and expr.id not in fi.params:
                 return self.repo.classes[next(iter(classes))]
+        if isinstance(expr, ast.Attribute) and isinstance(expr.value, ast.Name) and fi.cls is not None and fi.params and expr.value.id == fi.params[0]:
+            # self.<attr> that every method of the class only ever binds to instances of one class of the package
+            # (self._cache = IgnoreFileCache()), or that is annotated with such a class where it is bound
+            key = (fi.cls.qual, expr.attr)
+            memo = self.__dict__.setdefault("_attr_class", {})
+            if key not in memo:
+                classes = set()
+                other = False
+                for m in fi.cls.methods.values():
+                    if isinstance(m.node, ast.Lambda) or not m.params:
+                        continue
+                    sn = m.params[0]
+                    for n in ast.walk(m.node):
+                        tgts, val, ann = [], None, None
+                        if isinstance(n, ast.Assign):
+                            tgts, val = list(n.targets), n.value
+                        elif isinstance(n, ast.AnnAssign):
+                            tgts, val, ann = [n.target], n.value, n.annotation
+                        elif isinstance(n, ast.AugAssign):
+                            tgts, val = [n.target], None
+                        for t in tgts:
+                            if isinstance(t, ast.Attribute) and isinstance(t.value, ast.Name) and t.value.id == sn and t.attr == expr.attr:
+                                r = self.repo.resolve_expr(val.func, m.module, m) if isinstance(val, ast.Call) and isinstance(val.func, (ast.Name, ast.Attribute)) else None
+                                if isinstance(r, ClassInfo):
+                                    classes.add(r.qual)
+                                else:
+                                    other = True
+                memo[key] = self.repo.classes[next(iter(classes))] if len(classes) == 1 and not other else None
+            return memo[key]
         return None
 
     def resolve_call(self, fi: FuncInfo, call: ast.Call) -> list[FuncInfo] | str | None:
